@@ -136,7 +136,7 @@ class Job:
     def __init__(s, prop, name, src, root, units=(), defines=None, unwind=2, unwindset=None, flags=(),
                  backend='sat', timeout=600, mem_gb=12, tier='quick', stub=None, desc='', object_bits=None,
                  tv=20, covers=(), realloc_copy_max=None, extra_c=(), no_checks=False, arena=None,
-                 expect_fail=(), gxx_extra=(), unit_defines=None, gxx_units=(), gxx_exclude=()):
+                 expect_fail=(), gxx_extra=(), unit_defines=None, gxx_units=(), gxx_exclude=(), cut='', unwind_re=None):
         s.prop = prop; s.name = name; s.src = src; s.root = root; s.units = list(units)
         s.defines = dict(defines or {}); s.unwind = unwind; s.unwindset = dict(unwindset or {})
         s.flags = list(flags); s.backend = backend; s.timeout = timeout; s.mem_gb = mem_gb; s.tier = tier
@@ -144,7 +144,7 @@ class Job:
         s.desc = desc; s.object_bits = object_bits; s.tv = tv; s.covers = list(covers)
         s.realloc_copy_max = realloc_copy_max; s.extra_c = list(extra_c); s.no_checks = no_checks
         s.arena = arena; s.expect_fail = list(expect_fail); s.gxx_extra = list(gxx_extra)
-        s.unit_defines = dict(unit_defines or {}); s.gxx_units = list(gxx_units); s.gxx_exclude = list(gxx_exclude)
+        s.unit_defines = dict(unit_defines or {}); s.gxx_units = list(gxx_units); s.gxx_exclude = list(gxx_exclude); s.cut = cut; s.unwind_re = dict(unwind_re or {})
 
 def backend_flags(b, bdir):
     env = dict(os.environ)
@@ -180,13 +180,14 @@ def build_job(job, bdir, log):
     else:
         shutil.copy(hll, allll)
     xc = os.path.join(bdir, 'x.c')
-    rc, out, w, _ = sh([sys.executable, os.path.join(TOOL, 'll2c.py'), allll, xc, '--roots', job.root, '--stub', job.stub])
+    rc, out, w, _ = sh([sys.executable, os.path.join(TOOL, 'll2c.py'), allll, xc, '--roots', job.root, '--stub', job.stub] + (['--cut', job.cut] if job.cut else []))
     info = {'ll2c_s': round(w, 2), 'ir_lines': sum(1 for _ in open(allll))}
     m = re.search(r'translated (\d+) functions, (\d+) globals; (\d+) external', out)
     if not m or rc != 0:
         raise ToolError('ll2c failed for %s:\n%s' % (job.name, out[-3000:]))
     info['functions_translated'] = int(m.group(1)); info['globals'] = int(m.group(2))
     info['externs'] = re.findall(r'EXTERN (\S+)', out)
+    info['cuts'] = re.findall(r'CUT (\S+)', out)
     fl = os.path.join(bdir, 'x.c.funcs')
     info['functions'] = open(fl).read().split() if os.path.exists(fl) else []
     mainc = os.path.join(bdir, 'main.c')
@@ -216,11 +217,23 @@ def make_gb(bdir, xc, mainc, tag, cdefs, extra_c=()):
     must(['goto-instrument', '--drop-unused-functions', gb, gb2])
     return gb2
 
+def loops_matching(gb, unwind_re):
+    """per-loop bounds from regexes over loop ids (function.N), resolved against the goto binary"""
+    rc, out, w, _ = sh(['cbmc', gb, '--show-loops'], timeout=300)
+    ids = re.findall(r'^Loop (\S+):', out, re.M)
+    res = {}
+    for rx, n in unwind_re.items():
+        for i in ids:
+            if re.search(rx, i): res[i] = max(res.get(i, 0), n)
+    return res
+
 def run_cbmc(job, gb, bdir, witness=False):
     fl, env = backend_flags(job.backend if not witness else ('sat' if job.backend in ('z3', 'cvc5', 'cvc5int') else job.backend), bdir)
     cmd = ['cbmc', gb, '--unwind', str(job.unwind)] + CBMC_BASE + fl
-    if job.unwindset:
-        cmd += ['--unwindset', ','.join('%s:%d' % kv for kv in job.unwindset.items())]
+    uws = dict(job.unwindset)
+    if job.unwind_re: uws.update(loops_matching(gb, job.unwind_re))
+    if uws:
+        cmd += ['--unwindset', ','.join('%s:%d' % kv for kv in uws.items())]
     cmd += ['--object-bits', str(job.object_bits or 10)]
     if witness or job.no_checks:
         cmd += ['--no-standard-checks']
